@@ -35,6 +35,8 @@ const SIG_VAR_SHORTHAND: &str = "C24/parse-reject/object-variable-shorthand";
 const SIG_SPLIT_EMPTY: &str = "C24/proxy/values/split-of-empty-string";
 /// known finding: `last(f)` of an empty stream is null in jq <= 1.7.1 (`reduce f as $x (null; $x)`), nothing in succinctly
 const SIG_LAST_EMPTY: &str = "C24/proxy/values/last-of-empty-stream";
+/// known finding: variables bound outside `error(...)` (by `as` or --arg) are undefined inside its argument
+const SIG_ERROR_ARG_SCOPE: &str = "C24/error-argument-loses-variable-scope";
 const SIG_FORMAT_LITERAL: &str = "C24/parse-reject/format-string-literal";
 const TWO53: f64 = 9007199254740992.0;
 
@@ -849,6 +851,9 @@ fn check_meta(c: &MetaCase, st: &mut Stats) -> Result<(), Fail> {
         Err(e) => fail!(format!("C24/meta/stdout-not-json/{}", ws), {"case": case(), "parse_error": e.msg, "got": show_out(&o), "expected": exp_render()}),
     };
     if got.len() != exp_ys.len() || got.iter().zip(exp_ys.iter()).any(|(g, e)| !j_eq(g, &e.0)) {
+        if c.wrappers.contains(&W::ErrFirst) && c.anchor.args.iter().any(|a| a == "--arg" || a == "--argjson") && o.stdout_str().contains("undefined variable: $") {
+            fail!(SIG_ERROR_ARG_SCOPE, {"case": case(), "got": show_out(&o), "expected": exp_render()});
+        }
         if c.errfirst_empty && (o.stdout_str().contains("\"no value\"") || o.stderr_str().contains("no value")) {
             fail!(SIG_ERROR_EMPTY, {"case": case(), "got": show_out(&o), "expected": exp_render()});
         }
